@@ -25,7 +25,7 @@ SYMBOLIC = ['BLS/ECDSA verification is symbolic in the model: a signature is (si
 PROPS = {
  'C01': {'runs': bridge('C01'), 'monitor_props': ['C01'], 'rule': BRIDGE_RULE, 'assumptions': SYMBOLIC},
  'C02': {'runs': bridge('C02'), 'monitor_props': ['C02'], 'rule': BRIDGE_RULE, 'assumptions': SYMBOLIC,
-         'partial': 'cross-context binding of sign-docs (injectivity of the concatenation up to a hash collision) is argued in DESIGN.md, not yet a Coq theorem'},
+         'partial': ''},
  'C07': {'runs': runs([{'family': 'replicas', 'bin': 'ah', 'n': 40, 'shards': 2}], [{'family': 'replicas', 'bin': 'ah', 'n': 800, 'shards': 8}]),
          'monitor_props': ['C07'],
          'rule': 'block histories of 7 blocks (validator creation, lock request lists over 1..4 validators with unknown validators / tokens making the block message fail part-way, unlocks up to everything held, gas revenue) executed on three instances of the real application behind ABCI: A proposes, B and C check and finalise the same proposal, C is stopped between FinalizeBlock and Commit at scripted blocks, reloads from disk and finalises again; compared: app hash, per-tx codes and gas, the set of validator updates, the engine calls of the finalisation; distinct = blocks executed',
